@@ -374,6 +374,8 @@ M('c15-nc-floor-as-guard', ['C15'], Y23 + 'fnc_d_400.py', "FloatField('15', lamb
 M('c15-s3-capped-at-tax', ['C15'], Y23 + 'f1040_s3.py', "            return foreign_tax if foreign_tax > 0.001 else None\n", "            foreign_tax = min(foreign_tax, v['1040.16'])\n            return foreign_tax if foreign_tax > 0.001 else None\n", None, 'Schedule 3 line 1 limited to the tax (repair of the known finding F26): the repaired tree must be quiet', 'silent')
 
 # ------------------------------------------------------------------ C16
+M('c16-nc-withholding-owner-dropped', ['C16'], Y22 + 'fnc_d_400.py', "[enum.taxpayer_or_spouse.spouse, enum.taxpayer_spouse_or_both.spouse])", "[enum.taxpayer_or_spouse.spouse])", None, 'NC tax withheld on a 1099 owned by the spouse reaches neither line 20a nor 20b (seed C16-E)')
+M('c16-nc-withholding-both-twice', ['C16'], Y23 + 'fnc_d_400.py', "[enum.taxpayer_or_spouse.spouse, enum.taxpayer_spouse_or_both.spouse])", "[enum.taxpayer_or_spouse.spouse, enum.taxpayer_spouse_or_both.spouse, enum.taxpayer_spouse_or_both.both])", 'R16.7', 'NC tax withheld on a jointly owned 1099 is counted on both line 20a and line 20b')
 M('c16-election-threshold-differs', ['C16'], Y23 + 'f1040.py', "(v['1040_sa.17'] >= standard_deduction(s, i) or i['1040_sa.itemize_though_less'])", "(v['1040_sa.17'] >= standard_deduction(s, i) - 500.0 or i['1040_sa.itemize_though_less'])", 'R16.6', 'itemizing is chosen from 500 below the standard deduction: a larger Schedule A total can lower line 12')
 M('c16-election-written-the-other-way', ['C16'], Y23 + 'f1040.py', "(v['1040_sa.17'] >= standard_deduction(s, i) or i['1040_sa.itemize_though_less'])", "(not (standard_deduction(s, i) > v['1040_sa.17']) or i['1040_sa.itemize_though_less'])", None, 'same comparison written from the other side', 'silent')
 M('c16-first-copies-summed', ['C16'], Y22 + 'f1040.py', "            for n in range(i['number_1099-r']):\n                if not v[f'1099-r:{n}.box_7_ira_sep_simple']:", "            for n in range(i['number_1099-r']):\n                if n > 0 and not v[f'1099-r:{n}.box_7_ira_sep_simple']:", 'R16.1', 'copy number 0 is treated differently')
